@@ -815,8 +815,16 @@ func historyScenario(hist []int, alpha []startKind, crash bool, thorough bool) m
 				return
 			}
 			if len(ops) == 0 {
-				fail(c, "machinery", "trace-empty", "%s: no file-system mutating call was traced", what)
-				return
+				// a start that changes nothing on disk (e.g. it skips rewriting
+				// unchanged files) has no crash states; make sure that is what
+				// happened and not a trace that recorded nothing at all
+				raw, _ := os.ReadFile(trace)
+				if n := len(reLine.FindAllIndex(raw, -1)); n < 5 && bytes.Count(raw, []byte("\n")) < 5 {
+					fmt.Fprintf(os.Stderr, "MACHINERY: %s: strace recorded nothing (%d bytes)\n", what, len(raw))
+					os.Exit(3)
+				}
+				c.Count("starts_without_file_system_mutation", 1)
+				continue
 			}
 			c.Count("traced_mutating_calls", int64(len(ops)))
 			for _, cs := range crashStates(ops, thorough) {
